@@ -66,7 +66,9 @@ def event_tla(ev):
     if e == "spawn":
         par = ev.get("parent")
         f += [("t", task_tla(ev["t"])), ("cx", cx), ("haspar", tla(bool(par))),
-              ("parflows", tla(set(par["flows"])) if par else "{}")]
+              ("parflows", tla(set(par["flows"])) if par else "{}"),
+              ("parid", _id(par["id"]) if par else '<<"none", %d>>' % NOPOINT),
+              ("parout", tla(par.get("out") or "none") if par else '"none"')]
     elif e == "merge":
         f += [("id", _id(ev["id"])), ("before", tla(set(ev["before"]))), ("added", tla(set(ev["added"]))),
               ("after", tla(set(ev["after"]))), ("inpool", tla(ev["inpool"]))]
@@ -159,11 +161,13 @@ def event_tla(ev):
         f += [("job", "<<%s, %d, %d>>" % (tla(ev["job"][0]), ev["job"][1], ev["job"][2])), ("step", tla(ev["step"]))]
     elif e == "end":
         f += [("reason", tla(ev["reason"]))]
+    elif e == "loop_begin":
+        f += [("clock", str(int(ev["clock"])))]
     else:
         return None
     return "[" + ", ".join(f"{k} |-> {v}" for k, v in f) + "]"
 
-KEEP = {"remove_flushed", "xt_call", "xt_ret", "quiescent", "ds_update", "merge", "flow", "cmd", "cmd_done", "env_job", "sched_stop", "restored", "crash", "env_launch", "spawn", "remove", "state", "prepare", "msg", "q_release", "rh_compute", "loop_end", "boot", "set_stop",
+KEEP = {"loop_begin", "remove_flushed", "xt_call", "xt_ret", "quiescent", "ds_update", "merge", "flow", "cmd", "cmd_done", "env_job", "sched_stop", "restored", "crash", "env_launch", "spawn", "remove", "state", "prepare", "msg", "q_release", "rh_compute", "loop_end", "boot", "set_stop",
         "stall", "end"}
 
 def run_tla(w_tla: str, events: list, opt: dict):
